@@ -35,4 +35,48 @@ theorem cbcMac_is_last_cbc_block (c : Ciphers) (hc : c.Lawful) (key data : Bytes
       cbcEnc_chain (c.tdesE key) 8 (m + 1) P.length _ P (by decide) hm (by omega)]
   rfl
 
+theorem ecb_one (f : Bytes → Bytes) (b : Bytes) (hb : b.length = 8) : ecbUpdate f 8 (b.length / 8) b = f b := by
+  rw [hb]
+  show ecbUpdate f 8 1 b = f b
+  simp only [ecbUpdate, List.append_nil]
+  rw [List.take_of_length_le (by omega)]
+
+/-- **retail MAC = `E_{K1}(D_{K2}(last CBC block under K1))`**, spelt with the library's own `encrypt_tdes_cbc`,
+`decrypt_tdes_ecb` and `encrypt_tdes_ecb` (keys of any admissible, possibly different, sizes) -/
+theorem retailMac_is_cbc_then_ecb (c : Ciphers) (hc : c.Lawful) (key1 key2 data : Bytes) (padding : Int) (n : Nat)
+    (hk1 : tdesKeyOk key1 = true) (hk2 : tdesKeyOk key2 = true) (hp : padding = 1 ∨ padding = 2 ∨ padding = 3)
+    (hfit : padding = 3 → data.length * 8 < 256 ^ 8) :
+    ∃ ct d e, Des.encryptTdesCbc c key1 (Spec.zeroBytes 8) (Spec.padBy (methodOf padding) data 8) = .ok ct ∧
+      Des.decryptTdesEcb c key2 (lastN ct 8) = .ok d ∧ Des.encryptTdesEcb c key1 d = .ok e ∧
+      Mac.generateRetailMac c key1 key2 data padding (some (n : Int)) = .ok (e.take n) := by
+  have hpm := padBy_posMult (methodOf padding) data 8 (by decide) (by
+    intro h; apply hfit; unfold methodOf at h; rcases hp with h1 | h1 | h1 <;> simp_all)
+  generalize hP : Spec.padBy (methodOf padding) data 8 = P at hpm
+  obtain ⟨m, hm⟩ : ∃ m, P.length = (m + 1) * 8 := by
+    unfold PosMult at hpm
+    obtain ⟨h0, hmod⟩ := hpm
+    refine ⟨P.length / 8 - 1, ?_⟩
+    omega
+  have hd : DataOk 8 P := by unfold DataOk; omega
+  have hz : (Spec.zeroBytes 8).length = 8 := by simp [Spec.zeroBytes]
+  have hdiv : P.length / 8 = m + 1 := by omega
+  have hE : ∀ b : Bytes, b.length = 8 → (c.tdesE key1 b).length = 8 := fun b hb => hc.tdes_enc_len key1 b hk1 hb
+  have hlast : lastN (cbcEncUpdate (c.tdesE key1) 8 (P.length / 8) (Spec.zeroBytes 8) P).1 8 =
+      Spec.chain (c.tdesE key1) (Spec.zeroBytes 8) (Spec.blocksOf 8 P.length P) := by
+    rw [hdiv, cbcEnc_last (c.tdesE key1) 8 m _ P hE hm,
+        cbcEnc_chain (c.tdesE key1) 8 (m + 1) P.length _ P (by decide) hm (by omega)]
+  have hHl : (Spec.chain (c.tdesE key1) (Spec.zeroBytes 8) (Spec.blocksOf 8 P.length P)).length = 8 := by
+    rw [← hlast, hdiv, cbcEnc_last (c.tdesE key1) 8 m _ P hE hm]
+    have hlen := cbcEnc_length (c.tdesE key1) 8 (m + 1) (Spec.zeroBytes 8) P hE hm
+    have := cbcEnc_last (c.tdesE key1) 8 m (Spec.zeroBytes 8) P hE hm
+    rw [← this]; unfold lastN; rw [List.length_drop, hlen]; omega
+  generalize hH : Spec.chain (c.tdesE key1) (Spec.zeroBytes 8) (Spec.blocksOf 8 P.length P) = H at hlast hHl
+  have hDl : (c.tdesD key2 H).length = 8 := hc.tdes_dec_len key2 H hk2 hHl
+  refine ⟨_, c.tdesD key2 H, c.tdesE key1 (c.tdesD key2 H), tdes_cbc_enc_ok c key1 _ P hk1 hz hd, ?_, ?_, ?_⟩
+  · rw [hlast, tdes_ecb_dec_ok c key2 H hk2 (by unfold DataOk; omega), ecb_one _ _ hHl]
+  · rw [tdes_ecb_enc_ok c key1 _ hk1 (by unfold DataOk; omega), ecb_one _ _ hDl]
+  · rw [retailMac_eq_mac3 c hc key1 key2 data padding n hk1 hk2 hp hfit, hP]
+    unfold Spec.mac3
+    rw [hH]
+
 end Psec.Props.MacCbc
